@@ -26,7 +26,7 @@ def structures(draw, max_atoms=300, full_rank_only=False, allow_zero_periodic=Tr
         if fam == "slab" and draw(st.integers(0, 3)) != 3:
             d["pbc"] = [True, True, draw(st.booleans())]
     if fam == "gas":
-        d["cell"] = draw(gc.cell_descs(lo=3.0, hi=12.0, kinds=("orth", "tric", "sheared"), allow_lefthanded=True))
+        d["cell"] = draw(gc.cell_descs(lo=3.0, hi=12.0, kinds=("orth", "tric", "sheared", "special"), allow_lefthanded=True))
         n = draw(st.integers(1, 40))
         d["frac"] = [[draw(gc.ffloat(-0.3, 1.3)) for _ in range(3)] for _ in range(n)]
         d["Z"] = [draw(st.sampled_from(GAS_Z)) for _ in range(n)]
@@ -46,7 +46,7 @@ def structures(draw, max_atoms=300, full_rank_only=False, allow_zero_periodic=Tr
         if fam in ("grains", "stack"):
             d["proto2"] = draw(st.integers(0, len(PROTO) - 1))
             d["reps2"] = [draw(st.sampled_from([2, 1, 3])) for _ in range(3)]
-            d["gap"] = draw(gc.ffloat(1.5, 3.0))
+            d["gap"] = draw(gc.ffloat(1.5, 3.0)) if draw(st.integers(0, 2)) else draw(gc.ffloat(3.0, 6.0))
             d["quat"] = draw(st.lists(gc.ffloat(-1.0, 1.0), min_size=4, max_size=4))
         if fam == "isolated":
             d["n_iso"] = draw(st.integers(1, 2))
@@ -71,6 +71,9 @@ def structures(draw, max_atoms=300, full_rank_only=False, allow_zero_periodic=Tr
             d["zero"] = [z and not p for z, p in zip(d["zero"], d["pbc"])]
     if draw(st.integers(0, 3)) == 0:
         d["unwrap_seed"] = draw(seeds)
+    if draw(st.integers(0, 4)) == 0:
+        # the cell is the tight bounding box along the non-periodic directions: atoms lie exactly ON the lower and upper faces
+        d["tightbox"] = True
     d["max_atoms"] = max_atoms
     return d
 
@@ -195,6 +198,15 @@ def build(d):
         k = r.randint(-2, 3, size=(len(s), 3)).astype(float)
         k[:, ~np.asarray(s.get_pbc())] = 0
         s.set_positions(s.get_positions() + k @ np.asarray(s.get_cell()))
+    if d.get("tightbox") and not np.asarray(s.get_pbc()).all() and abs(np.linalg.det(np.asarray(s.get_cell()))) > 1e-6:
+        c = np.asarray(s.get_cell()).copy()
+        f = np.linalg.solve(c.T, s.get_positions().T).T
+        for i in range(3):
+            if not s.get_pbc()[i] and np.ptp(f[:, i]) * np.linalg.norm(c[i]) > 0.5:
+                lo, ext = f[:, i].min(), np.ptp(f[:, i])
+                s.set_positions(s.get_positions() - lo * c[i])
+                c[i] = c[i] * ext
+        s.set_cell(c, scale_atoms=False)
     if d.get("zero"):
         c = np.asarray(s.get_cell()).copy()
         for i in range(3):
@@ -215,4 +227,6 @@ def labels(d, s):
         out.append("unwrapped")
     if d.get("shear") is not None:
         out.append("sheared")
+    if d.get("tightbox") and not pbc.all():
+        out.append("tightbox")
     return out
